@@ -963,6 +963,36 @@ def search(chk: core.Check) -> None:
     chk.search_log.append("numeric hunt: %d extra round(s) of all streams, %d violation(s) found" % (rounds, len(chk.violations)))
 
 
+# Props/C18Inst.lean: the abstract hypotheses of Props/C18.lean discharged at the real thing (bisection at log Phi, ErfLike for the
+# standard normal, log-argument positivity quantified over the generated bodies); it imports Props/C18
+PROVE_MODULES = ["OptunaVerif.Props.C18", "OptunaVerif.Props.C18Inst"]
+
+
+def generated_bodies_covered(chk: core.Check) -> None:
+    """`C18Inst.no_nan_from_valid_args_generated` quantifies over the table `genFns`; the table must name EVERY formula-valued
+    definition (`def x : E`, and every member of a `def x : List E`) of the file the translator has just re-emitted."""
+    import os
+    import re
+    try:
+        gen = open(TR.OUT).read()
+        inst = open(os.path.join(core.LEAN_DIR, "OptunaVerif", "Props", "C18Inst.lean")).read()
+    except OSError as e:
+        chk.broke("translation", {"generated_bodies_covered": repr(e)[:300]})
+        return
+    table = inst[inst.index("def genFns"):inst.index("theorem genFns_covers_arm_lists")]
+    singles = re.findall(r"^def (\w+) : E :=", gen, flags=re.M)
+    lists = re.findall(r"^def (\w+) : List E :=", gen, flags=re.M)
+    missing = [n for n in singles if '⟨"%s", %s,' % (n, n) not in table]
+    missing += [n for n in lists if '⟨"%s[0]", %s.getD 0' % (n, n) not in table]
+    lens = dict(re.findall(r"theorem genFns_covers_arm_lists : (.*) := by decide", inst) and
+                re.findall(r"(\w+)\.length = (\d+)", re.findall(r"theorem genFns_covers_arm_lists : (.*) := by decide", inst)[0]))
+    missing += [n for n in lists if n not in lens]
+    chk.extra["generated_formula_bodies"] = {"single": singles, "lists": lists}
+    chk.count("generated-bodies-covered", len(singles) + len(lists))
+    if missing or not singles:
+        chk.broke("translation", {"what": "Props/C18Inst.lean::genFns does not list every generated formula body", "missing": missing})
+
+
 def main(chk: core.Check) -> int:
     chk.rule = RULE
     chk.level = "proof"
@@ -978,8 +1008,9 @@ def main(chk: core.Check) -> int:
         chk.broke("translation", {"translator": "verif/translators/truncnorm.py", "why": str(e)[:500]})
     except (SyntaxError, OSError) as e:
         chk.broke("translation", {"translator": "verif/translators/truncnorm.py", "why": repr(e)[:500]})
+    generated_bodies_covered(chk)
     if not getattr(chk, "no_prove", False):
-        chk.prove()
+        chk.prove(PROVE_MODULES)
     V = Viol(chk)
     r = chk.rng
     try:
